@@ -37,6 +37,10 @@ def tie_inputs(rng) -> list[bytes]:
 def custom_dir(root: str) -> str:
     os.makedirs(os.path.join(root, "sub", "deep"))
     os.makedirs(os.path.join(root, "other"))
+    for d in ("only/zz", "only/aa", "only/mm/deeper"):         # a level with nothing but sub-directories
+        os.makedirs(os.path.join(root, d))
+        with open(os.path.join(root, d, "dup.words"), "wb") as f:
+            f.write(b"strlen\nkernel32\n" + d.encode() + b"\n")
     files = {"a.words": b"#tag\nstrlen\nStrLen\nSTRLEN\nGetProcAddress\n; note\n", "sub/b.words": b"strlen\ngetprocaddress\n",
              "sub/deep/a.words": b"StrLen\nevil\n", "other/c.words": b"evil\nEvil\nstrlen\n", "z.words": b"evil\n"}
     for rel, raw in files.items():
@@ -76,6 +80,10 @@ def run(prop: str, tier: str) -> int:
     # same-span hits from different decoder modules (their order in the registry decides which one nests in which)
     inputs += [b"x = cmd.exe", b"run powershell.exe", b"get http://a.example.com/x.exe", b"\\\\host.example.com\\share\\cmd.exe", b"start C:\\Windows\\System32\\cmd.exe",
                b"strlen #tag ; note GetProcAddress"]
+    plain = (b"This program cannot be run in DOS mode. " * 14)[:520]
+    for key in (b"\x21\x43\x65", b"\x10\x20\x30\x40"):       # byte arrays whose xor key has to be guessed (ties among candidate keys)
+        inputs.append(b",".join(b"%d" % (c ^ key[i % len(key)]) for i, c in enumerate(plain)) + b" -bxor $key")
+    inputs.append(b",".join(b"%d" % (i % 2) for i in range(700)) + b" -bxor $k")
     inputs += list(drivers.token_soup(rng, 25 if tier == "quick" else 300))
     inputs += drivers.repo_literals()[:: 6 if tier == "quick" else 1]
     hx = [x.hex() for x in inputs]
